@@ -332,12 +332,22 @@ CORPUS = [
     "Y = X['2000'] + X[`2001`] + X[\"a\"]", 'Y = `self.k` * X', 'Y = X if Z > 0 else W[-1]', 'Y = not_X + is_open + Pin + in_',
     'Y = max(X, Z[-2]) + min (W, 1)', 'Y = np.sqrt(X) + abs(-Z)', 'Y = <e> + {a}[-1] + < eps >[ 2 ]', 'Y = 2e5 * X', 'Y = X.T',
     'Y = X\nZ = Y[-1]\nW = Z + Y', 'Y = X\n```\nfoo = 1\n```\nZ = W', '`x = 1`', '', 'Y = a < b > c', 'Y = 1 if{a}else 2', 'Y = X==Z',
-    'Y = X\nY = X', 'Y = f(X) + g.h(Z)', 'Y = (X +\n  Z)', '(Y =\n X)', 'Y = X[ -1 ]+X[+1]',
+    'Y = X\nY = X', 'Y = f(X) + g.h(Z)', '```\npass\n```\nY = X', 'Y = X\n`k = 1`', 'Z==()', 'Y[=1]', 'Y = (X +\n  Z)', '(Y =\n X)', 'Y = X[ -1 ]+X[+1]',
+]
+
+
+FIXED_PROGS = [
+    {'k': 'prog', 's': 'Y = X [-1]', 'ref': [{'lhs': 'Y[t]', 'deps': ['X[t-1]'], 'cond': False}], 'flags': ['space-before-index'], 'seed': 1},
+    {'k': 'prog', 's': 'Y = exp + exp(X)', 'ref': [{'lhs': 'Y[t]', 'deps': ['X[t]', 'exp[t]'], 'cond': False}], 'flags': ['variable-and-function'], 'seed': 1},
+    {'k': 'prog', 's': 'Y = Y[-1] + {a} * X\nZ = Y + Z[-1] + <e>', 'ref': [{'lhs': 'Y[t]', 'deps': ['X[t]', 'Y[t-1]', 'a[t]'], 'cond': False},
+                                                                        {'lhs': 'Z[t]', 'deps': ['Y[t]', 'Z[t-1]', 'e[t]'], 'cond': False}], 'flags': [], 'seed': 2},
+    {'k': 'prog', 's': 'Y = Y + 1', 'ref': [{'lhs': 'Y[t]', 'deps': ['Y[t]'], 'cond': False}], 'flags': [], 'seed': 3},
+    {'k': 'prog', 's': 'Y[1] = X[2] if X > Z[-1] else W', 'ref': [{'lhs': 'Y[t+1]', 'deps': ['W[t]', 'X[t+2]', 'X[t]', 'Z[t-1]'], 'cond': True}], 'flags': [], 'seed': 4},
 ]
 
 
 def gen(rng, tier):
-    cases = [{'k': 's', 's': s, 'seed': 1 + i} for i, s in enumerate(CORPUS)]
+    cases = [{'k': 's', 's': s, 'seed': 1 + i} for i, s in enumerate(CORPUS)] + [dict(c) for c in FIXED_PROGS]
     n = 1800 if tier == 'quick' else 30000
     for i in range(n):
         cases.append(gen_prog(rng, plain=(i % 10 == 0)))
@@ -389,6 +399,10 @@ def _witness(eq):
         toks += ['C%02x' % ord(c) for c in side[pos:]]
         out.append(','.join(toks) if toks else '.')
     return out[0] + ' / ' + out[1]
+
+
+class _NoAssignment(Exception):
+    pass
 
 
 def _isolated(symbols, seed):
@@ -444,6 +458,8 @@ def _isolated(symbols, seed):
                 em.install_recorders(m, names, log)
                 run(m, s.code)
                 base.append(float(np.asarray(m.__dict__['_' + y])[t + ky]))
+                if not any(r[0] == 'W' and r[1] == y and r[2] == t + ky for r in log):
+                    raise _NoAssignment()
                 entry['reads'].append(sorted({(r[1], r[2] - t) for r in log if r[0] == 'R' and isinstance(r[2], int)}))
             for nm in names:
                 for k in range(-lags, leads + 1):
@@ -460,6 +476,8 @@ def _isolated(symbols, seed):
                     if hit:
                         entry['infl'].append([nm, k])
             entry['reads'] = [[list(x) for x in r] for r in entry['reads']]
+        except _NoAssignment:
+            entry = {'lhs': lhs, 'skip': 'no-assignment'}      # e.g. `Z==()`: accepted as an equation, but the code is a comparison
         except Exception as e:      # noqa: BLE001 - the class is the observation
             entry = {'lhs': lhs, 'exc': type(e).__name__}
         res.append(entry)
@@ -586,7 +604,15 @@ def oracle(case, obs):
             add('grammar-program-rejected', 'a program of the grammar was rejected with ' + str(obs.get('parse')))
         return fails
     if obs.get('graph') != 'ok':
-        add('graph-raises', 'symbols_to_graph raised ' + str(obs.get('graph')) + ' on the symbols of an accepted script')
+        verb = [x.split('|') for x in obs['sym'].split(';') if x]
+        if obs['graph'] == 'ValueError' and any(f[1] == 'VERBATIM' and f[4] != '-' and '=' not in pc.unhx(f[4][1:]) for f in verb):
+            add('graph-raises|verbatim-block-without-equals', 'symbols_to_graph raised ValueError: the `equation` of a verbatim block has no "=" to split at')
+        elif (obs['graph'] == 'ValueError' and case['k'] == 's'
+              and any(f[1] == 'ENDOGENOUS' and f[4] != '-' and '=' not in pc.unhx(f[4][1:]) for f in verb)):
+            add('graph-raises|equation-without-equals', 'symbols_to_graph raised ValueError: the parser produced a normalised equation without "=" '
+                '(an index bracket that spans the "=" of the statement)')
+        else:
+            add('graph-raises', 'symbols_to_graph raised ' + str(obs.get('graph')) + ' on the symbols of an accepted script')
         return fails
     nodes = {n: a for n, a in obs['nodes']}
     edges = {(a, b) for a, b in obs['edges']}
@@ -599,9 +625,10 @@ def oracle(case, obs):
     for name, e in obs['eqs']:
         if e is None or '=' not in e:
             continue
-        lhs_of.setdefault(e.split('=', 1)[0].strip(), []).append(e)
+        for m in TERM_ID.finditer(e.split('=', 1)[0]):
+            lhs_of.setdefault(m.group(0), []).append(e)
     for lhs, es in lhs_of.items():
-        if TERM_ID.fullmatch(lhs) and len(es) == 1 and nodes.get(lhs, None) != es[0]:
+        if len(es) == 1 and nodes.get(lhs, None) != es[0]:
             add('lhs-node', 'left-hand side %s does not carry its equation %r (node attribute %r)' % (lhs, es[0], nodes.get(lhs)))
     for n, a in nodes.items():
         if a is not None and varlike(n) and TERM_ID.fullmatch(n) and n not in lhs_of:
